@@ -144,6 +144,7 @@ def run_mass_case(ctx, case, model=True):
             if len(pts) == 1:
                 g_spec = np.full(pe.shape, float(pts[0][1]))
             else:
+                pts = sorted(pts)        # the order in which a table lists its points carries no meaning
                 g_spec = np.asarray(PchipInterpolator([q[0] for q in pts], [q[1] for q in pts], extrapolate=True)(np.atleast_1d(rp.load_ratio)), dtype=float)
                 g_spec = np.broadcast_to(g_spec, pe.shape)
             if not all(close(a, b) for a, b in zip(g, g_spec)):
